@@ -11,6 +11,29 @@ import SquidModel.Ftp.CNum
 namespace SquidModel.Ftp
 open SquidModel.Gen.FtpParsing
 
+/-- the variant of Ftp::ParseIpPort found in the source (see Gen.FtpParsing.pasvLong / pasvHostChecked) -/
+structure PasvFlags where
+  long : Bool
+  hostChecked : Bool
+  deriving DecidableEq, Repr
+
+/-- the variant of Ftp::ParseProtoIpPort found in the source (see Gen.FtpParsing.eprtLong / eprtPortMin / eprtPortMax) -/
+structure EprtFlags where
+  long : Bool
+  portMin : Int
+  portMax : Int
+  deriving DecidableEq, Repr
+
+/-- the code as pinned: `int` fields, no host range check; `int` numbers, `port < 0` only -/
+def PasvFlags.legacy : PasvFlags := ⟨false, false⟩
+def EprtFlags.legacy : EprtFlags := ⟨false, 0, -1⟩
+/-- the code with notes/fixes/C40-pasv-component-range.diff resp. C40-eprt-number-range.diff -/
+def PasvFlags.fixed : PasvFlags := ⟨true, true⟩
+def EprtFlags.fixed : EprtFlags := ⟨true, 1, 65535⟩
+/-- the code in the staged tree -/
+def PasvFlags.current : PasvFlags := ⟨pasvLong, pasvHostChecked⟩
+def EprtFlags.current : EprtFlags := ⟨eprtLong, eprtPortMin, eprtPortMax⟩
+
 inductive AddrResult where
   | reject
   | ok (ip : Nat) (port : Nat)
@@ -57,15 +80,20 @@ def pasvPort (sanity : Bool) (a : Nat) (p1 p2 : Int) : AddrResult :=
   else .ok a ((p1 * 256 + p2).toNat % 65536)              -- addr.port(unsigned short)
 
 /-- Ftp::ParseIpPort(buf, forceIp, addr) with `Config.Ftp.sanitycheck = sanity`; `addr0` = value of `addr` on entry. -/
-def parseIpPort (ipParse : Bytes → Option Nat) (sanity : Bool) (forceIp : Option Bytes) (addr0 : Nat) (buf : Bytes) : AddrResult :=
-  match scan6 buf with
+def parseIpPortCore (fl : PasvFlags) (ipParse : Bytes → Option Nat) (sanity : Bool) (forceIp : Option Bytes) (addr0 : Nat) (buf : Bytes) : AddrResult :=
+  match scan6 fl.long buf with
   | some [h1, h2, h3, h4, p1, p2] =>
     -- if (n != 6 || p1 < 0 || p2 < 0 || p1 > 255 || p2 > 255) return false;
     if p1 < 0 ∨ p2 < 0 ∨ p1 > pasvOctetMax ∨ p2 > pasvOctetMax then .reject else
+    -- (fixed variant only) if (h1 < 0 || ... || h4 > 255) return false;
+    if fl.hostChecked = true ∧ (h1 < 0 ∨ h2 < 0 ∨ h3 < 0 ∨ h4 < 0 ∨ h1 > 255 ∨ h2 > 255 ∨ h3 > 255 ∨ h4 > 255) then .reject else
     match pasvAddr ipParse forceIp addr0 h1 h2 h3 h4 with
     | none => .reject
     | some a => pasvPort sanity a p1 p2
   | _ => .reject
+
+/-- the function as it is in the staged tree -/
+def parseIpPort := parseIpPortCore PasvFlags.current
 
 /-- `strchr(s, delim)`: (bytes before the first `delim`, bytes after it) -/
 def splitAtByte (delim : UInt8) : Bytes → Option (Bytes × Bytes)
@@ -75,30 +103,35 @@ def splitAtByte (delim : UInt8) : Bytes → Option (Bytes × Bytes)
     else (splitAtByte delim r).map fun (a, b) => (c :: a, b)
 
 /-- Ftp::ParseProtoIpPort after `addr = ip;` -/
-def eprtPort (sanity : Bool) (proto : Int) (addr : Nat) (rest : Bytes) : AddrResult :=
+def eprtPort (fl : EprtFlags) (sanity : Bool) (proto : Int) (addr : Nat) (rest : Bytes) : AddrResult :=
   if isAny addr = true then .reject else                   -- if (addr.isAnyAddr()) return false;
   if (proto = 2) ≠ (isV4 addr = false) then .reject else   -- if ((proto == 2) != addr.isIPv6()) return false;
   -- const int port = strtol(s, &e, 10); if (port < 0 || *e != '|') return false;
-  if (strtolInt rest).1 < 0 ∨ (strtolInt rest).2.head? ≠ some 124 then .reject else
-  if sanity = true ∧ (strtolInt rest).1 < eprtSanityMinPort then .reject else
-  .ok addr ((strtolInt rest).1.toNat % 65536)              -- addr.port(unsigned short)
+  -- (fixed variant: const long port; if (port <= 0 || port > 65535 || *e != '|') return false;)
+  if (strtolC fl.long rest).1 < fl.portMin ∨ (0 ≤ fl.portMax ∧ (strtolC fl.long rest).1 > fl.portMax) ∨
+      (strtolC fl.long rest).2.head? ≠ some 124 then .reject else
+  if sanity = true ∧ (strtolC fl.long rest).1 < eprtSanityMinPort then .reject else
+  .ok addr ((strtolC fl.long rest).1.toNat % 65536)        -- addr.port(unsigned short)
 
 /-- Ftp::ParseProtoIpPort after the protocol number: `e` points at the delimiter that follows it -/
-def eprtAddr (ipParse : Bytes → Option Nat) (sanity : Bool) (addr0 : Nat) (delim : UInt8) (proto : Int) (e : Bytes) : AddrResult :=
+def eprtAddr (fl : EprtFlags) (ipParse : Bytes → Option Nat) (sanity : Bool) (addr0 : Nat) (delim : UInt8) (proto : Int) (e : Bytes) : AddrResult :=
   match splitAtByte delim e.tail with                      -- s = e + 1; e = strchr(s, delim);
   | none => .reject
   | some (ipTxt, rest) =>
     if ipTxt.length ≥ maxIpStrLen then .reject else        -- if (e - s >= sizeof(ip)) return false;
-    eprtPort sanity proto (assignIp ipParse addr0 ipTxt) rest
+    eprtPort fl sanity proto (assignIp ipParse addr0 ipTxt) rest
 
 /-- Ftp::ParseProtoIpPort(buf, addr); `buf` is a non-empty C string (the caller answers 501 to empty parameters). -/
-def parseProtoIpPort (ipParse : Bytes → Option Nat) (sanity : Bool) (addr0 : Nat) (buf : Bytes) : AddrResult :=
+def parseProtoIpPortCore (fl : EprtFlags) (ipParse : Bytes → Option Nat) (sanity : Bool) (addr0 : Nat) (buf : Bytes) : AddrResult :=
   match buf with
   | [] => .reject
   | delim :: s =>
     -- const int proto = strtol(s, &e, 10); if ((proto != 1 && proto != 2) || *e != delim) return false;
-    if ((strtolInt s).1 ≠ 1 ∧ (strtolInt s).1 ≠ 2) ∨ (strtolInt s).2.head? ≠ some delim then .reject else
-    eprtAddr ipParse sanity addr0 delim (strtolInt s).1 (strtolInt s).2
+    if ((strtolC fl.long s).1 ≠ 1 ∧ (strtolC fl.long s).1 ≠ 2) ∨ (strtolC fl.long s).2.head? ≠ some delim then .reject else
+    eprtAddr fl ipParse sanity addr0 delim (strtolC fl.long s).1 (strtolC fl.long s).2
+
+/-- the function as it is in the staged tree -/
+def parseProtoIpPort := parseProtoIpPortCore EprtFlags.current
 
 /-! ### A concrete text-to-address conversion for canonical dotted quads (used by the driver as the fall-back
 and by the `decide`d examples): exactly four decimal fields of 1–3 digits, each ≤ 255. -/
